@@ -26,7 +26,7 @@ LEVEL_TEXT = ("Generated valid queries (grouping-sensitive shapes forced) are se
               "same nodes as the original on generated documents. Sampled.")
 LEVEL_NOTE = "Trusted: reference recogniser/type checker for validity of str(); the equivalence oracle is the library itself on concrete documents (plus the reference AST comparison to direct the search)."
 
-NAMES = ["a", "b", "c", "d", "'", '"', "\\", "\n", "é", "\x00", "a b", "", "\U0001F600"]
+NAMES = ["a", "b", "c", "d", "'", '"', "\\", "\n", "\u00e9", "\x00", "a b", "", "\U0001F600"]
 
 
 def norm(x):
